@@ -317,6 +317,9 @@ def _arr(x, dtype=None) -> STensor:
         return STensor(list(t.flat()), list(range(t.numel())), list(t.shape), dt("int64") if allint and vals else dt("float64"))
     if isinstance(x, (int, Fraction, Rat)):
         return STensor.from_flat([x], [], as_dtype(dtype) if dtype is not None else (dt("int64") if isinstance(x, int) else dt("float64")))
+    if hasattr(x, "__next__"):
+        # np.array(<generator/iterator>) does not consume it: the result is a 0-d object array wrapping the iterator
+        return STensor.from_flat([Rat.atom(f"object<{type(x).__name__}>")], [], dt("float64"))
     raise Unsupported(f"numpy array from {type(x).__name__}")
 
 
@@ -410,6 +413,75 @@ def np_eye(n, m=None, dtype=None, **k):
     n = int(n)
     t = symt.eye(n) if m is None else STensor.from_nested([[1 if i == j else 0 for j in range(int(m))] for i in range(n)])
     return STensor(list(t.flat()), list(range(t.numel())), list(t.shape), as_dtype(dtype) if dtype is not None else dt("float64"))
+
+
+# ---- linear algebra / lattice helpers used by utils/simpleitk/grid.py
+def np_diag(v, k=0):
+    return symt.diag(_arr(v))
+
+
+def np_matmul(a, b):
+    a, b = _arr(a), _arr(b)
+    if b.ndim == 0 or a.ndim == 0:
+        raise InterpError("ValueError: matmul: Input operand does not have enough dimensions")
+    return symt.matmul(a, b)
+
+
+def np_copy(a, **k):
+    return _arr(a).clone()
+
+
+def np_round(a, decimals=0, **k):
+    """np.round / np.around. decimals >= 9 is value-preserving for the purposes of the coordinate maps (documented tolerance)."""
+    a = _arr(a)
+    if int(decimals) >= 9:
+        return a.clone()
+    if int(decimals) == 0:
+        vals = []
+        for v in a.flat():
+            v = to_rat(v)
+            if symt.FACTS.is_integral(v):
+                vals.append(v)
+            elif v.is_const():
+                vals.append(Rat.of(round(v.const_value())))
+            else:
+                vals.append(symt.sfunc("rint", v))
+        return STensor.from_flat(vals, list(a.shape), a.dtype)
+    raise Unsupported(f"np.round(decimals={decimals})")
+
+
+def np_arange(*a, dtype=None, **k):
+    out = symt.arange(*a)
+    return out.astype(dtype) if dtype is not None else STensor(list(out.flat()), list(range(out.numel())), list(out.shape), dt("int64") if all(isinstance(symt.simplify(v), int) for v in out.flat()) else dt("float64"))
+
+
+def np_meshgrid(*xi, indexing="xy", **k):
+    xs = [_arr(x) for x in xi]
+    if indexing == "ij":
+        return list(symt.meshgrid(*xs, indexing="ij"))
+    if len(xs) < 2:
+        return list(symt.meshgrid(*xs, indexing="ij"))
+    out = symt.meshgrid(*([xs[1], xs[0]] + xs[2:]), indexing="ij")
+    return [t.transpose(0, 1) for t in [out[1], out[0]] + list(out[2:])]
+
+
+def np_stack(arrays, axis=0, **k):
+    return symt.stack([_arr(a) for a in arrays], int(axis))
+
+
+def np_concatenate(arrays, axis=0, **k):
+    return symt.cat([_arr(a) for a in arrays], int(axis))
+
+
+def np_flip(a, axis=None):
+    a = _arr(a)
+    if axis is None:
+        dims = list(range(a.ndim))
+    elif isinstance(axis, int):
+        dims = [axis]
+    else:
+        dims = [int(v) for v in axis]
+    return a.flip(dims)
 
 
 def np_prod(a, dtype=None, **k):
@@ -507,6 +579,17 @@ def _st_astype(self, dtype, **k):
     d = as_dtype(dtype)
     if d.name == self.dtype.name:
         return self.clone()
+    if not d.is_floating_point and d.name != "bool" and self.dtype.is_floating_point:
+        vals = []
+        for v in self.flat():
+            v = to_rat(v)
+            if symt.FACTS.is_integral(v):
+                vals.append(v)
+            elif v.is_const():
+                vals.append(Rat.of(int(v.const_value())))
+            else:
+                vals.append(symt.sfunc("trunc", v))  # opaque: the fractional part is lost
+        return STensor.from_flat(vals, list(self.shape), d)
     out = self.type(d)
     if out is self:
         out = self.clone()
@@ -914,6 +997,7 @@ class _Module(HostObject):
 # ------------------------------------------------------------------------------------------------ registration
 def install() -> None:
     install_numpy_methods()
+    tae.NUMPY_SIZE_ATTR = True
     F = tae._EXTERNAL_FUNCS
     V = tae._EXTERNAL_VALUES
     for name, (d, _) in NP_TYPES.items():
@@ -925,6 +1009,9 @@ def install() -> None:
         "numpy.squeeze": np_squeeze, "numpy.swapaxes": np_swapaxes, "numpy.transpose": np_transpose, "numpy.reshape": np_reshape,
         "numpy.ravel": np_ravel, "numpy.ones": np_ones, "numpy.zeros": np_zeros, "numpy.eye": np_eye, "numpy.prod": np_prod,
         "numpy.ndim": np_ndim, "numpy.divide": np_divide, "numpy.abs": np_abs, "numpy.dtype": np_dtype, "numpy.issubdtype": np_issubdtype,
+        "numpy.diag": np_diag, "numpy.matmul": np_matmul, "numpy.copy": np_copy, "numpy.round": np_round, "numpy.around": np_round,
+        "numpy.arange": np_arange, "numpy.meshgrid": np_meshgrid, "numpy.stack": np_stack, "numpy.concatenate": np_concatenate,
+        "numpy.flip": np_flip,
         "numpy.uintp": np_uintp, "numpy.frombuffer": np_frombuffer, "numpy.iinfo": _IInfo,
         "io.BytesIO": HBytesIO, "zlib.compress": zlib_compress, "zlib.decompress": zlib_decompress,
         "torch.from_numpy": lambda a: a,
